@@ -1338,6 +1338,12 @@ func main() {
 		for i := 0; i < n; i++ {
 			emitHistory(w, seed, i)
 		}
+		for i := 0; i < n/4+6; i++ {
+			emitCertHistory(w, seed, i)
+		}
+		for i := 0; i < n/2+8; i++ {
+			emitInvisible(w, seed, i, dir)
+		}
 		w.Close()
 	case "genjv":
 		var n int
@@ -1376,6 +1382,10 @@ func replay(in map[string]any, dir, repo string) {
 		emitFixtures(w, repo)
 	case "history":
 		emitHistory(w, seed, num("history_index"))
+	case "history-cert":
+		emitCertHistory(w, seed, num("history_index"))
+	case "invisible":
+		emitInvisible(w, seed, num("inv_index"), dir)
 	case "sign", "sign-envelope", "sign-verify", "sign-good":
 		emitSign(w, seed, num("sign_index"))
 	case "value":
